@@ -1,4 +1,8 @@
-"""Verus units: which repo files are cut, which contract overlays are spliced, prelude / spec files."""
+"""Verus units: which repo files are cut, which contract overlays are spliced, prelude / spec files.
+Each file lib/unitdefs/*.py defines UNITS = {name: {...}}; they are merged here (one file per
+area so that independent work does not collide)."""
+import glob
+import importlib.util
 import os
 
 V = os.path.dirname(os.path.dirname(os.path.abspath(__file__)))
@@ -19,12 +23,13 @@ CRATE_FILES = [
     ("src/traits.rs", "crate::traits"),
 ]
 
-UNITS = {
-    "compress": {
-        "files": CRATE_FILES,
-        "prelude": _p("prelude/core.rs"),
-        "spec": _p("spec/blake3_spec.rs"),
-        "overlays": _p("contracts/compress.vc"),
-        "doc": "portable compression function and byte/word helpers against the paper's G/round/permutation",
-    },
-}
+UNITS = {}
+for _f in sorted(glob.glob(os.path.join(V, "lib", "unitdefs", "*.py"))):
+    _s = importlib.util.spec_from_file_location("unitdefs_" + os.path.basename(_f)[:-3], _f)
+    _m = importlib.util.module_from_spec(_s)
+    _m._p, _m.CRATE_FILES, _m.V = _p, CRATE_FILES, V
+    _s.loader.exec_module(_m)
+    for _k, _v in _m.UNITS.items():
+        if _k in UNITS:
+            raise RuntimeError("duplicate unit " + _k)
+        UNITS[_k] = _v
